@@ -33,8 +33,8 @@ Returns:
   else:
     with errstate(over='ignore', invalid='ignore'):
       w = sum(abs(weights**p), axis=axis)**(1./p)
-    # use the infinity norm (only) where the p-norm overflowed
-    w = where(isfinite(w), w, max(abs(weights), axis=axis))[()]
+    if not isfinite(w).all(): # use the infinity norm where overflowed
+      w = where(isfinite(w), w, max(abs(weights), axis=axis))[()]
   return w if (axis is None or not w.shape) else expand_dims(w, axis=axis)
 
 def absolute_distance(x, xp=None, pair=False, dmin=0):
@@ -182,8 +182,9 @@ Notes:
   d = absolute_distance(x,xp,pair=pair,dmin=dmin).astype(float)
   with errstate(over='ignore', invalid='ignore'):
       dp = (d**p).sum(axis=axis)**(1./p)
-  # use the infinity norm (only) where the p-norm overflowed
-  return where(isfinite(dp), dp, d.max(axis=axis))[()]
+  if not isfinite(dp).all(): # use the infinity norm where overflowed
+      dp = where(isfinite(dp), dp, d.max(axis=axis))[()]
+  return dp
 
 
 def euclidean(x,xp=None, pair=False, dmin=0, axis=None):
